@@ -47,6 +47,8 @@ for nm, op in OPS.items():
         DEFS.append("forall(lambda k, c: implies(0 <= k < len(gaf_file.records) and 0 <= c < npairs(k), %s[(k, c + 1)] == %s[(k, c)] + "
                     "ite(runs(k)[2 * c + 1] == '%s' and (%s), 1, 0)))" % (g2, g2, op, cond))
         var = "total_%s%s" % (nm, suffix)
+        CIG_DEF_IDX = globals().setdefault("CIG_DEF_IDX", {})
+        CIG_DEF_IDX[var] = (len(DEFS) - 2, len(DEFS) - 1)
         CIG_INV_OUT[var] = "implies(cigar_stat, %s == %s[it1])" % (var, g1)
         CIG_INV_IN[var] = "%s == %s[it1 - 1] + %s[(it1 - 1, it2)]" % (var, g1, g2)
         CIG_POST["cigar-" + var] = "implies(cigar_stat, %s == %s[len(gaf_file.records)])" % (var, g1)
@@ -88,7 +90,12 @@ def register(reg):
             "forall(lambda k: implies(0 <= k < len(gaf_file.records), rec(k).query_length != 0 and rec(k).alignment_block_length != 0 and len(runs(k)) >= 0))",
         ],
         loops={
-            1: Loop(index="it1", fingerprint="for alignment_count, mapping in enumerate(", invariant=dict(
+            1: Loop(index="it1", fingerprint="for alignment_count, mapping in enumerate(",
+                    # the CIGAR counters: preserved from the inner loop's invariant at its exit, the defining clauses of the two ghost prefix arrays
+                    # and the quantifier-free path facts
+                    pres_from={v: ["all-pairs-counted", "loop2:" + v, "loop2:pairs", "loop1:" + v, "requires:%d" % CIG_DEF_IDX[v][0], "requires:%d" % CIG_DEF_IDX[v][1]]
+                               for v in CIG_DEF_IDX},
+                    invariant=dict(
                 list(fmt(base_inv, "it1").items()) + list(fmt(READS_INV, "it1").items()) + list(CIG_INV_OUT.items())
                 + [("count-variable", "alignment_count == it1")])),
             # the inner loop only touches the CIGAR counters: everything else persists as facts about unmodified variables
